@@ -138,3 +138,91 @@ contract(MF, CTX + ".close_shard", props=["C10", "C04", "C06", "C08", "C18", "C1
     ],
     # an existing list file of this directory that cannot be loaded (corrupt / escaping) is an error
     raises={"ValueError": ["not old(split in self._shards_lists)", "shard._shard_writer is None"]})
+
+# ---- integrity check (C05) ----------------------------------------------------------
+MW = "sedpack/io/dataset_writing.py"
+macro("ALGS", ["d"], "d._dataset_info.dataset_structure.hash_checksum_algorithms")
+macro("LIST_MATCHES", ["d", "info"],
+      "IS_DIGESTS(info.shard_list_info_file.hash_checksums, ALGS(d), disk_read(PJOIN(d.path, info.shard_list_info_file.file_path)))")
+macro("FILE_MATCHES", ["d", "fi"], "IS_DIGESTS(fi.hash_checksums, ALGS(d), disk_read(PJOIN(d.path, fi.file_path)))")
+macro("SHARD_MATCHES", ["d", "si"], "forall(lambda m: implies(0 <= m and m < len(si.file_infos), FILE_MATCHES(d, si.file_infos[m])))")
+# SUBOK(d, info): the list file named by info has the recorded digests, and so
+# has every list below it (definition by recursion over the finite tree, A-TREE)
+ufunc("SUBOK", ["int", "int"], "bool")
+_CHK_DEFS = _TREE_DEFS + [
+    "forall(lambda info: SUBOK(self, info) == (LIST_MATCHES(self, sli_ref(info))"
+    "   and forall(lambda i: implies(0 <= i and i < len(docref(self.path, sli_ref(info).shard_list_info_file.file_path).children_shard_lists),"
+    "        SUBOK(self, docref(self.path, sli_ref(info).shard_list_info_file.file_path).children_shard_lists[i])))))",
+    # A-PYD: every document parsed from disk satisfies the validators
+    "forall(lambda rel: VALID_ShardsList(docref(self.path, rel)), rel='U')",
+]
+
+contract(MB, "DatasetBase._get_config_path", props=["C05", "C20", "C08"],
+    params={"path": "U", "relative": "bool"}, returns="U", modifies=[],
+    ensures=["result == ite_u(relative, 'dataset_info.json', PJOIN(path, 'dataset_info.json'))"])
+
+contract(MW, "DatasetWriting.current_metadata_checksums", props=["C05", "C16"], params={}, returns="list:U",
+    modifies=[], fs_root="self.path",
+    at_call={"hash_checksums": [("C16", "callee_hashes == ALGS(self)"),
+                                ("C05", "callee_file_path == PJOIN(self.path, 'dataset_info.json')")]},
+    ensures=[("C05", "IS_DIGESTS(result, ALGS(self), disk_read(PJOIN(self.path, 'dataset_info.json')))")],
+    raises={"FileNotFoundError": ["True"]})
+
+contract(MW, "DatasetWriting._check_shard_list_info", props=["C05", "C17"],
+    params={"shard_list_info": "ref:ShardListInfo"}, modifies=[], defs=_CHK_DEFS, fs_root="self.path",
+    decreases="DEPTH(self.path, shard_list_info.shard_list_info_file.file_path)",
+    requires=["VALID_ShardListInfo(shard_list_info)"],
+    at_call={"hash_checksums": [
+        ("C05", "callee_file_path == PJOIN(self.path, shard_list_info.shard_list_info_file.file_path)"),
+        ("C16", "callee_hashes == ALGS(self)")]},
+    ensures=[("C05", "SUBOK(self, shard_list_info)")],
+    raises={"ValueError": ["True"], "FileNotFoundError": ["True"]},
+    loops={1: Loop(inv=[
+        "0 <= _k and _k <= len(shard_list.children_shard_lists)",
+        "shard_list.children_shard_lists == docref(self.path, shard_list_info.shard_list_info_file.file_path).children_shard_lists",
+        ("C05", "LIST_MATCHES(self, shard_list_info)"),
+        # every child visited so far is checked, recursively: no child is skipped
+        ("C05", "forall(lambda i: implies(0 <= i and i < _k, SUBOK(self, shard_list.children_shard_lists[i])))"),
+    ])})
+
+macro("SPLIT_REL", ["d", "s"], "d._dataset_info.splits[s].shard_list_info_file.file_path")
+# every shard of the split's tree (depth first) has, for EVERY file info, the recorded digests
+macro("SHARDS_MATCH", ["d", "s"],
+      "forall(lambda i: implies(0 <= i and i < LEN(TSEQ(d.path, SPLIT_REL(d, s))), SHARD_MATCHES(d, si_ref(NTH(TSEQ(d.path, SPLIT_REL(d, s)), i)))))")
+macro("KEYSEQ", ["dct", "j"], "dictkey(dct, j)")
+
+contract(MW, "DatasetWriting.check", props=["C05", "C16", "C17"],
+    params={"show_progressbar": "bool", "hash_checksums_values": "list:U"},
+    modifies=[], defs=_CHK_DEFS, fs_root="self.path",
+    requires=["forall(lambda s: implies(s in self._dataset_info.splits, truthy(s) and VALID_ShardListInfo(self._dataset_info.splits[s])), s='U')"],
+    at_call={"hash_checksums": [
+        ("C16", "callee_hashes == ALGS(self)"),
+        ("C05", "callee_file_path == PJOIN(self.path, file_info.file_path)")]},
+    ensures=[
+        # (i) expected checksums of the description, when supplied
+        ("C05", "implies(len(hash_checksums_values) > 0, hash_checksums_values == digests_list(ALGS(self), disk_read(PJOIN(self.path, 'dataset_info.json'))))"),
+        # (ii) every list file of every split, recursively
+        ("C05", "forall(lambda s: implies(s in self._dataset_info.splits, SUBOK(self, self._dataset_info.splits[s])), s='U')"),
+        # (iii) every file of every shard of every split
+        ("C05", "forall(lambda s: implies(s in self._dataset_info.splits, SHARDS_MATCH(self, s)), s='U')"),
+    ],
+    raises={"ValueError": ["True"], "FileNotFoundError": ["True"], "Foreign": ["True"]},
+    loops={
+        1: Loop(inv=[
+            "0 <= _k",
+            ("C05", "forall(lambda j: implies(0 <= j and j < _k, SUBOK(self, self._dataset_info.splits[dictkey(self._dataset_info.splits, j)])))"),
+        ]),
+        2: Loop(inv=[
+            "0 <= _k",
+            ("C05", "forall(lambda s: implies(s in self._dataset_info.splits, SUBOK(self, self._dataset_info.splits[s])), s='U')"),
+            ("C05", "forall(lambda j: implies(0 <= j and j < _k, SHARDS_MATCH(self, dictkey(self._dataset_info.splits, j))))"),
+        ]),
+        3: Loop(inv=[
+            "0 <= _k", "split in self._dataset_info.splits",
+            ("C05", "forall(lambda i: implies(0 <= i and i < _k, SHARD_MATCHES(self, si_ref(NTH(TSEQ(self.path, SPLIT_REL(self, split)), i)))))"),
+        ]),
+        4: Loop(inv=[
+            "0 <= _k and _k <= len(shard_info.file_infos)",
+            ("C05", "forall(lambda m: implies(0 <= m and m < _k, FILE_MATCHES(self, shard_info.file_infos[m])))"),
+        ]),
+    })
